@@ -610,7 +610,8 @@ struct Case
     long long           refHeapDelta;
     std::string         refUbsan;   // UBSan report line of the fault-free run, if any (reported once, not per k)
     uint64_t            offset;     // global index of k = 1
-    Case() : init(false), N(0), refHeapDelta(0), offset(0) {}
+    bool                faultFreeOnly;  // quick tier: scenarios outside the quick set still get their fault-free run (balance, crash, UBSan)
+    Case() : init(false), N(0), refHeapDelta(0), offset(0), faultFreeOnly(false) {}
 };
 
 // ---------------------------------------------------------------------------------------------------------------
@@ -1351,7 +1352,7 @@ std::vector<Case> buildCases(const std::string& tier, bool beforeInit)
         return v;
     }
     for (int i = 0; i < kNScens; ++i)
-        if (!quick || kScens[i].quick) { Case c; c.name = kScens[i].name; c.scens.push_back(i); v.push_back(c); }
+        { Case c; c.name = kScens[i].name; c.scens.push_back(i); c.faultFreeOnly = quick && !kScens[i].quick; v.push_back(c); }
     if (!quick)
         for (int i = 0; i < kNScens; ++i)
             for (int j = 0; j < kNScens; ++j)
@@ -1444,7 +1445,7 @@ struct Engine
             if (shard == 0)
             {
                 out.count("scenarios");
-                out.count("allocations_total", c.N);
+                if (!c.faultFreeOnly) out.count("allocations_total", c.N);
                 out.count("N:" + c.name, c.N);
             }
             if (b.outcome == O_BASELINE_OK && !c.refUbsan.empty() && shard == 0)
@@ -1469,6 +1470,11 @@ struct Engine
                     viol(c, 0, b, sig);
                     out.count("outcome:fault-free-" + b.outcomeName());
                 }
+                continue;
+            }
+            if (c.faultFreeOnly)
+            {
+                if (shard == 0) out.count("fault_free_only_scenarios");
                 continue;
             }
             for (long long k = 1; k <= c.N; ++k, ++globalIdx)
